@@ -434,9 +434,14 @@ func (c *wsConn) handleChanClose(frame frame) {
 }
 
 func (c *wsConn) handleResponse(frame frame) {
+	// inflightLk is held until the response is delivered (and, for channel
+	// results, the sink is registered): connection-loss handling
+	// (closeInFlight, then closeChans) then runs either before the lookup or
+	// after the delivery, never in between, so a call gets exactly one answer
+	// and a sink registered here is always seen by closeChans
 	c.inflightLk.Lock()
+	defer c.inflightLk.Unlock()
 	req, ok := c.inflight[frame.ID]
-	c.inflightLk.Unlock()
 	if !ok {
 		log.Error("client got unknown ID in response")
 		return
@@ -468,9 +473,7 @@ func (c *wsConn) handleResponse(frame frame) {
 		Error:   frame.Error,
 	}
 	vhook(c, "ws.resp.deliver.after", frame.ID)
-	c.inflightLk.Lock()
 	delete(c.inflight, frame.ID)
-	c.inflightLk.Unlock()
 }
 
 func (c *wsConn) handleCall(ctx context.Context, frame frame) {
